@@ -13,6 +13,12 @@ Cases (all on real files under <worktree>/.work/, removed afterwards):
              a fresh instance of the class parses the content under the extension / data type ext through the
              entry point (3 = get_parsed_instance: class ignored); result or exception, and whether the
              instance's ballots / edges are still empty afterwards.  Every (class, extension) pair, wrong and right.
+  c10.name   payload = (class directory base_name autocorrect header_only bare)  a small file of the class under a file
+             name with 0-3+ dots, upper case, spaces, non-ASCII characters, in a directory with or without dots;
+             parse_file(path), parse_url(file:// + pathname2url(path)), get_parsed_instance(path) against the model's
+             derivation of the declared type (splitext_ext, url_ext) + parse; the three must agree whenever the two
+             derivations name the same type (they differ on the unchanged tree for ".soc", "...soc": os.path.splitext
+             sees no extension there, url.split(".")[-1] does).
   c10.large  payload = (class ext items generator_seed autocorrect header_only terminator)  a generated well-formed file
              larger than one 65536-byte read block (large_content), all four entry points + the model.
   c10.raw    payload = (class entrypoint ext content autocorrect header_only)  content outside the restyling
@@ -46,13 +52,17 @@ RULE = ("instances from the generators of C01 / C08 / C09 (small exhaustive rang
         "65536-byte blocks, names made of 2- to 4-byte UTF-8 characters, the TITLE lengthened until no multiple of 65536 "
         "bytes falls on a line end and, where the header is long enough, the first one falls inside a multi-byte "
         "character) through all four entry points, compared with each other and - up to 400 KB - with the model's "
-        "parse_url on the same bytes. "
+        "parse_url on the same bytes; FILE NAMES (c10.name): base names with 0-3+ dots, upper case, spaces, non-ASCII "
+        "characters (percent-encoded in the file: URL), in directories with and without dots, x every valid / one wrong "
+        "/ no / upper-case extension per class x header_only, through parse_file, parse_url and get_parsed_instance "
+        "against the model's derivation of the declared type (os.path.splitext vs url.split('.')[-1]) and with each "
+        "other where the two derivations agree. "
         "non-trivial = an entry case whose content has >= 1 ballot / edge line and >= 1 padded line")
 EXHAUSTIVE = {"quick": "every (class, extension in soc soi toc toi cat wmd + 8 others) x entry point in file str url get "
                        "x 3 contents (gate matrix); every terminator x {no padding, padding} x {no gaps, gaps} uniform "
                        "style on 3 small instances per class x header_only x autocorrect",
               "thorough": "the same, on 12 small instances per class"}
-THEOREMS_FOR_OP = {"c10.large": "C10_entrypoints_text, C10_splitters (no size bound in either)", "c10.entry": "C10_entrypoints, C10_splitters, C10_lines_equiv, C10_header_only, C10_dispatch",
+THEOREMS_FOR_OP = {"c10.name": "C10_declared_type (splitext_ext / url_ext), C10_gate, C10_dispatch", "c10.large": "C10_entrypoints_text, C10_splitters (no size bound in either)", "c10.entry": "C10_entrypoints, C10_splitters, C10_lines_equiv, C10_header_only, C10_dispatch",
                    "c10.gate": "C10_gate, C10_gate_get, C10_dispatch", "c10.raw": "(model correspondence only)"}
 TRUSTED = ["modelled: PrefLibInstance.parse_lines / parse_file / parse_str / parse_url, get_parsed_instance, the "
            "three type_validator methods, on top of the C01 / C08 / C09 file models; os.path.splitext / "
@@ -400,6 +410,40 @@ def impl_large(c, d):
     return out
 
 
+def bare_content(cl):
+    """CONTENTS[cl] without the FILE NAME and DATA TYPE lines: data_type / file_name stay as the entry point set them"""
+    return "".join(l for l in CONTENTS[cl].splitlines(True)
+                   if not l.startswith("# FILE NAME") and not l.startswith("# DATA TYPE"))
+
+
+def impl_name(c, d):
+    import urllib.request
+    cl, reldir, base, ac, ho, bare = c["payload"]
+    reldir, base = U(reldir), U(base)
+    dirpath = os.path.join(d, reldir) if reldir else d
+    os.makedirs(dirpath, exist_ok=True)
+    path = os.path.join(dirpath, base)
+    content = bare_content(cl) if bare else CONTENTS[cl]
+    _write_raw(path, content)
+    url = "file://" + urllib.request.pathname2url(path)
+    kw = {"autocorrect": bool(ac), "header_only": bool(ho)}
+
+    def run(e):
+        def go():
+            if e == 3:
+                from preflibtools.instances import get_parsed_instance
+                return dump(get_parsed_instance(path, **kw))
+            inst = _cls()[cl]()
+            if e == 0:
+                inst.parse_file(path, **kw)
+            else:
+                inst.parse_url(url, **kw)
+            return dump(inst)
+        return guarded(go)
+
+    return {"path": T(path), "url": T(url), "content": T(content), "res": {str(e): run(e) for e in (0, 2, 3)}}
+
+
 def impl(c):
     op, pl = c["op"], c["payload"]
     os.makedirs(WORK, exist_ok=True)
@@ -407,6 +451,8 @@ def impl(c):
     try:
         if op == "c10.large":
             return impl_large(c, d)
+        if op == "c10.name":
+            return impl_name(c, d)
         if op == "c10.entry":
             cl, ipl, ac, ho, styles = pl
             inst = build(cl, ipl)
@@ -438,6 +484,14 @@ def impl(c):
 # ------------------------------------------------------------------------------------------------ model side
 def oracle_requests(c, r):
     op, pl = c["op"], c["payload"]
+    if op == "c10.name":
+        if not isinstance(r, dict) or "path" not in r:
+            return []
+        cl, reldir, base, ac, ho, bare = pl
+        return [("c10.parse_path", [cl, 0, r["path"], ac, ho, r["content"]]),
+                ("c10.parse_path", [cl, 2, r["url"], ac, ho, r["content"]]),
+                ("c10.parse_path", [cl, 3, r["path"], ac, ho, r["content"]]),
+                ("c10.declared", [r["path"], r["url"]])]
     if op == "c10.large":
         if not isinstance(r, dict) or "text" not in r:
             return []
@@ -512,8 +566,36 @@ def judge_large(c, r, mres):
     return None
 
 
+def judge_name(c, r, mres):
+    cl, reldir, base, ac, ho, bare = c["payload"]
+    if not isinstance(r, dict) or "path" not in r or len(mres) != 4:
+        return {"kind": "broken-correspondence", "reason": "implementation side returned %r" % (r,)}
+    path, url = U(r["path"]), U(r["url"])
+    m_file, m_url, m_get, (t_file, t_url) = mres
+    # file_name before the header is read (documented, not modelled): basename / last URL component up to its first dot
+    init = {"0": os.path.basename(path), "3": os.path.basename(path), "2": url.split("/")[-1].split(".")[0]}
+    for e, m in (("0", m_file), ("2", m_url), ("3", m_get)):
+        bad = _cmp("%s on the file name %r (declared type per model: path %r, url %r)" % (
+            ENTRY_NAMES[int(e)], os.path.join(U(reldir), U(base)), U(t_file), U(t_url)), r["res"][e], m, init[e])
+        if bad:
+            return bad
+    if t_file == t_url:
+        # in-domain shape: os.path.splitext and url.split(".")[-1] name the same type - the entry points must agree
+        a = [canon_res(r["res"][e]) for e in ("0", "2", "3")]
+        for x in a:
+            if x[0] == 0:
+                x[1][1] = [[]] + x[1][1][1:]         # entry-point specific initial file_name
+        # (get_parsed_instance picks its own class: comparable with the class under test only when that class accepts)
+        if a[0] != a[1] or (a[0][0] == 0 and a[0] != a[2]):
+            return "entry points disagree on the file name %r: parse_file %s, parse_url %s, get_parsed_instance %s" % (
+                U(base), _short(a[0]), _short(a[1]), _short(a[2]))
+    return None
+
+
 def judge(c, r, mres):
     op, pl = c["op"], c["payload"]
+    if op == "c10.name":
+        return judge_name(c, r, mres)
     if op == "c10.large":
         return judge_large(c, r, mres)
     if not isinstance(r, dict) or "res" not in r or not mres:
@@ -595,6 +677,8 @@ def judge(c, r, mres):
 
 
 def nontrivial(c, r, m):
+    if c["op"] == "c10.name":
+        return U(c["payload"][2]).count(".") >= 2 or bool(c["payload"][1])
     if c["op"] == "c10.large":
         return isinstance(r, dict) and r.get("nbytes", 0) > BLOCK and r.get("cut") != "on a line end"
     if c["op"] != "c10.entry" or not isinstance(r, dict) or r.get("res", [[1]])[0][0] != 0:
@@ -607,6 +691,19 @@ def nontrivial(c, r, m):
 
 def stats(c, r, m):
     op, pl = c["op"], c["payload"]
+    if op == "c10.name":
+        base, reldir = U(pl[2]), U(pl[1])
+        lab = ["name dots in base name=%d%s" % (min(base.count("."), 3), "+" if base.count(".") > 3 else "")]
+        if "." in reldir:
+            lab.append("name directory with dots")
+        if any(ord(ch) > 127 or ch == " " for ch in base + reldir):
+            lab.append("name with space / non-ASCII (percent-encoded in the URL)")
+        if any(ch.isupper() for ch in base):
+            lab.append("name with upper-case characters")
+        if m and len(m) == 4 and isinstance(m[3], list):
+            lab.append("name declared types %s, %s" % ("agree" if m[3][0] == m[3][1] else "DIFFER (out of domain)",
+                                                       "accepted" if isinstance(m[0], list) and m[0][0] == 0 else "refused by parse_file"))
+        return lab
     if op == "c10.large":
         nb = r.get("nbytes", 0) if isinstance(r, dict) else 0
         size = "> 1 MiB" if nb > 1 << 20 else "> 128 KiB" if nb > 1 << 17 else "> 64 KiB" if nb > BLOCK else "small"
@@ -644,6 +741,11 @@ def stats(c, r, m):
 
 def describe(c):
     op, pl = c["op"], c["payload"]
+    if op == "c10.name":
+        cl, reldir, base, ac, ho, bare = pl
+        return {"op": op, "class": CLASSES[cl], "directory (below the scratch directory)": U(reldir), "base name": U(base),
+                "autocorrect": ac, "header_only": ho,
+                "content": "without FILE NAME / DATA TYPE lines" if bare else "canonical small file of the class"}
     if op == "c10.large":
         cl, ext, n, seed, ac, ho, term = pl
         return {"op": op, "class": CLASSES[cl], "extension": U(ext), "items (orders / alternatives / edges)": n,
@@ -660,7 +762,7 @@ def describe(c):
 
 def shrink(c):
     op, pl = c["op"], c["payload"]
-    if op == "c10.large":
+    if op in ("c10.large", "c10.name"):
         return
     if op == "c10.entry":
         cl, ipl, ac, ho, styles = pl
@@ -816,6 +918,22 @@ def generate(tier, seed):
         ipl = rand_instance(cl, rng)
         ac, ho = int(rng.random() < 0.3), int(rng.random() < 0.35)
         out.append(case("c10.entry", [cl, ipl, ac, ho, rand_styles(rng)], rnd=1))
+    # ---- file names: dots in the base name and in directories, case, spaces, non-ASCII
+    stems = ["inst", "inst.v2", "a.b.c", "x.", "00002-00000001.v2", "Inst", "MY.File", "my file", "caf\u00e9 \u4e2d.1",
+             "", "..", "x.y.", ".hid"]
+    dirs = ["", "dir.v1", "a.b/c", "Dir With Space", "d\u00e9p.x", "plain"]
+    k = 0
+    for cl in range(3):
+        wrong = ["cat", "wmd", "soc"][cl]
+        for stem in stems:
+            for ext in EXT_OF_CLASS[cl] + [wrong, "", EXT_OF_CLASS[cl][0].upper()]:
+                base = stem + "." + ext if ext else stem
+                if base in ("", ".", "..") or base.endswith("/"):
+                    continue
+                for ho in (0, 1):
+                    for dname in (dirs if (not quick or stem in ("inst.v2", "inst")) else [dirs[k % len(dirs)]]):
+                        k += 1
+                        out.append(case("c10.name", [cl, T(dname), T(base), k % 2 if cl != 2 else 0, ho, (k // 2) % 2], name=1))
     # ---- large contents (more than one 65536-byte block; names with multi-byte UTF-8 characters)
     big = [(0, "soc", 4000, 0, 0, 0), (0, "toi", 3200, 0, 0, 1), (1, "cat", 2000, 0, 0, 0), (2, "wmd", 4500, 0, 0, 0),
            (1, "cat", 1800, 1, 1, 2)]
